@@ -283,6 +283,23 @@ CHECKS["C12"] = dict(
     design="5/C12",
 )
 
+CHECKS["C15"] = dict(
+    level="exploration",
+    text="PARTIAL, said plainly. A getter modelled as a pure function is read-only by definition, so a Lean statement about most entry points would be empty: the "
+    "decision for them is exploration. Proved (package layer, where the code is NOT pure because reads fill caches): Document.get_part / Container.get_part / "
+    "reading the manifest keep the content of every name whatever they cache, answer the content of the name, give the same answer the second time, keep the "
+    "listing of the parts, for every state and every sequence of reads (C15 theorems over OdfModel/Package.lean); save keeps every parsed part (C11). Explored: "
+    "every property and every method whose name says it only reports (get_*, is_*, search*, traverse*, as_*, to_*, show_*, match, text_at, serialize, str, clone, "
+    "remove_spans / remove_links, exports, replace without replacement incl. formatted=True, ranged table reads) of Document, Body, Meta, Styles, Content, "
+    "Manifest, Table, Row, Cell, Paragraph, Header, Span, List, Frame, Note, TOC, Link, DrawPage on samples, templates and generated spreadsheets with "
+    "repetitions, in random order, twice: serialisation of the five XML parts and bytes of the others before / after each call, second answer = first.",
+    note="Entry points are enumerated by introspection against reviewed name patterns; documented get-or-create accessors (get_variable_decls, "
+    "get_user_field_decls: 'Created if not found') are excluded. Documents with a table of more than 4000 cells are skipped (the property bounds table sizes). "
+    "A part that was only loaded lazily in between is compared with its source. The Lean theorems cover the package-layer reads only.",
+    technique="exploration of the read-only API by introspection (before/after serialisation) + Lean 4 theorems for the cache-filling reads of the package layer",
+    design="5/C15",
+)
+
 NOT_YET = {}
 
 
